@@ -140,12 +140,20 @@ class MainVoltage(Contract):
     params = ['argc', 'argv']
     tags = {'C17'}
     slice_from = 'V_RF'
-    slice_until = 'fs'
+    slice_until = 'alpha'
     slice_externals = {'opts': 'vfps::ProgramOptions'}
     replay = lambda self, o, model, pid: {'driver': 'main', 'scenarios': ['voltage']}
 
     def requires(self, cx):
         return []
+
+    def slice_setup(self, ex, st):
+        # documented domain of the other machine parameters the slice reads (beam energy, revolution frequency, harmonic number)
+        a = ex.args0
+        for need in ('E0', 'f_rev', 'harmonic_number'):
+            if need not in a:
+                raise ExtractionError(f'main: variable {need} not found before the accelerating voltage is read')
+        st.assume(And(a['E0'].t > 0, a['f_rev'].t > 0, a['harmonic_number'].t >= 1, models.uf_const('PI') > 3, models.uf_const('PI') < 4))
 
     def assigns(self, cx):
         return [('s', 'ghost.*'), ('s', 'arg:*')]
@@ -166,7 +174,26 @@ class MainVoltage(Contract):
         # libm (IEEE): sqrt(x) > 0 only for x > 0 (sqrt of a negative number is NaN, which compares false; sqrt(0) = 0)
         from .z import SQRT
         ax = Implies(SQRT(arg) > 0, arg > 0)
-        return [('effective_voltage_is_a_positive_number', {'C17'}, Implies(ax, arg > 0))]
+        out = [('effective_voltage_is_a_positive_number', {'C17'}, Implies(ax, arg > 0))]
+        # ... and with a synchrotron frequency that is a non-zero number: given, or computed as the square root of a positive
+        # number (a momentum compaction factor that is not positive has none).  libm (ideal stand-in for IEEE, where every ordered
+        # comparison with NaN is false): sqrt(x) >= 0, and sqrt(x) > 0 only for x > 0, for the square roots that occur
+        fs = v('fs')
+        axs, seen, todo = [], set(), [fs]
+        name = SQRT(z3.RealVal(1)).decl().name()
+        while todo:
+            e = todo.pop()
+            if e.get_id() in seen:
+                continue
+            seen.add(e.get_id())
+            if z3.is_app(e) and e.decl().name() == name:
+                axs += [e >= 0, Implies(e > 0, e.arg(0) > 0)]
+            todo.extend(e.children())
+        given = cx.old.f('arg:opts.f_s', 'real')
+        radicand = v('alpha0_tmp') * v('harmonic_number') * v('V_eff') / (2 * models.uf_const('PI') * cx.a('E0'))
+        out.append(('synchrotron_frequency_is_a_nonzero_number', {'C17'},
+                    Implies(And(*axs), And(fs != 0, Implies(given == 0, And(arg > 0, cx.old.f('arg:opts.alpha0', 'real') > 0))))))
+        return out
 
 
 class MainTrackingFile(Contract):
